@@ -6,7 +6,7 @@ C18 — const use of a shared domain object from several threads is race-free.
     pair, hence no data race), and gives every thread exactly the results of running its own program alone on the initial memory.
 (2) `claimed_ops_readonly`: a kernel evaluation over the footprint table regenerated from the clang AST on every run
     (translate/footprint.py): every const member function and copy constructor of a domain class (random draws excepted) writes no
-    data member of the shared object (no `mutable`, no `const_cast`), writes through no pointer member (shared tables, plain counters;
+    data member of the shared object (no assignment to, non-const call on or non-const binding of a `mutable` member, no `const_cast`), writes through no pointer member (shared tables, plain counters;
     `std::atomic` pointees are synchronised by construction) and touches no static storage except the documented random state.
 -/
 import GivaroModel.Model.Threads
@@ -71,7 +71,8 @@ example : let rd : Op := ⟨fun m => ([], m 0 + 1)⟩
   rcases hs with h | h | h <;> subst h <;> rfl
 
 /-! ### the claimed operations of the real code are read-only on the shared object -/
-def allowedStatics : List String := ["local:randstate", "write:randstate"]
+/-- `Rational::flags` (the documented process-wide reduction mode) may be read by the rational field operations, never written -/
+def allowedStatics : List String := ["local:randstate", "write:randstate", "Rational::flags"]
 
 theorem claimed_ops_readonly :
     ∀ r ∈ rows, r.claimed = true → r.constWrites = [] ∧ r.pointeeWrites = [] ∧ (∀ s ∈ r.statics, s ∈ allowedStatics) := by
